@@ -224,13 +224,23 @@ CHECKS = {
             "Coq proofs by induction on free-monad programs + 2000 random program/description cases per run against the real Serialiser/Deserialiser with real fixeddict types",
             "DESIGN.md 3 C21"),
     "C06": (True,
-            "Theorems at primitive and step level: every primitive (incl. reads past a bounded block's end, byte-align and bounded-block padding) written back reproduces "
-            "exactly the consumed bits; refutation witness for the pinned padding/auxiliary program and round trip of the repaired one. PARTIAL: the whole-program converse "
-            "(des then ser = identity on bytes) is NOT proved; at program level the property is decided by the differential run over the real parse_stream on 1300+ "
-            "parseable byte strings (conformant streams, field-level and bit-level mutants).",
-            C_TIE + "Model of the parse_info+padding unit as a prog term is compared on 80 byte strings per run.",
-            "Coq primitive/step lemmas + differential des->ser->des run on the real bitstream description of mutated streams",
+            "Theorems for ALL programs of the SerDes model in the class conv_ok (no is_target_complete, no negative lengths, hole-free computed values): "
+            "if deserialising bits succeeds and verifies, serialising the resulting description with the same program returns the same results and writes "
+            "exactly the consumed bits (incl. reads past bounded-block ends, block and byte-align padding), and re-deserialising gives a syntactically equal "
+            "description. Five real vc2.py descriptions (parse_info+padding/aux, sequence_header, fragment_header, hq_slice, ld_slice with clamped lengths) are "
+            "written as programs, proved conv_ok and compared with the real functions each run. PARTIAL: the composition into parse_stream (stream loop, "
+            "picture_parse, _state computed values) is covered by the differential des->ser->des run on 1300+ parseable byte strings.",
+            C_TIE + "Slice coefficient counts and slice_bytes passed to the slice programs come from the real slice_sizes functions.",
+            "Coq proof of the des->ser converse by a path-wise 'future description' invariant + differential run on real streams and mutants",
             "DESIGN.md 3 C06"),
+    "C19": (True,
+            "Theorems over a model of the queue-based search built on the proved C18 matcher: every returned sequence contains the required symbols in order "
+            "with only insertions and matches every pattern (full strength, all inputs/limits/priorities); the search terminates; the result does not depend on "
+            "the iteration order of the candidate set. PARTIAL: completeness and shortestness over ALL completions are REFUTED by two machine-checked witnesses "
+            "(known finding make_matching_sequence:greedy-continue); what the code computes is proved instead: a shortest GREEDY completion, impossibility iff no greedy completion.",
+            C_TIE + "Fuel = the real call's iteration count from an instrumented deque; symbols numbered per case in sorted order.",
+            "Coq BFS-queue invariant proofs over the C18 matcher theorems + differential run + exhaustive non-greedy reference search classifying every case",
+            "DESIGN.md 3 C19"),
 }
 
 NOT_YET = "check not built yet (work in progress; see DESIGN.md section 7 work order)"
